@@ -117,7 +117,7 @@ Fixpoint lex_go (st : lstate) (s : string) : option (list token) :=
         oapp (flush st)
           (if is_blank c then lex_go LIdle s'
            else if is_alpha c then lex_go (LIdent (String c EmptyString)) s'
-           else if is_digit c then lex_go (LNum (String c EmptyString) false) s'
+           else if is_digit c || Ascii.eqb c "." then lex_go (LNum (String c EmptyString) false) s'
            else if Ascii.eqb c "(" then ocons TLp (lex_go LIdle s')
            else if Ascii.eqb c ")" then ocons TRp (lex_go LIdle s')
            else if Ascii.eqb c "," then ocons TComma (lex_go LIdle s')
